@@ -239,6 +239,14 @@ func TestC13(t *testing.T) {
 	m.Assume("xtsref (math/big GF(2^128) doubling over crypto/aes) is validated on IEEE 1619 vectors 1,2,3,4,10 and against libgcrypt and nettle; crypto/aes is trusted (AES is not under test); libgcrypt has no XTS-AES-192: AES-192 pairs are judged by ref + nettle (generic xts over aes192)")
 	m.Assume("sector number -> tweak is the 128-bit little-endian encoding of IEEE 1619 §5.1; the witnesses receive the tweak bytes produced by the ref's encoder (validated by IEEE vectors with sector 0x3333333333 and 0xff)")
 
+	if mon.RaceBuild {
+		m.Note("race variant: only the yielding-cipher concurrent streams run (race detector on)")
+		rt := m.N(64, 800)
+		yieldingConcurrentXTS(m, "p1", rt)
+		yieldingConcurrentXTS(m, "pN", rt)
+		return
+	}
+
 	total := m.N(3000, 100000)
 	m.Cases("xts", total, func(i int64, r *rand.Rand) {
 		var klen int
